@@ -539,7 +539,7 @@ def _symbolic_idx(spec, p):
         return [0]
     if n in ("rx", "ry", "rz", "Rx", "Ry", "Rz", "ms", "givens", "cphase") or n.startswith("PhaseGradient"):
         return [0]
-    if n in ("PhasedXPow", "FSim", "PhasedISwapPow"):
+    if n in ("PhasedXPow", "FSim", "PhasedISwapPow", "PhasedISwapPowShift"):
         return [0, 1]
     if n == "PhasedXZ":
         return [0, 1, 2]
